@@ -141,10 +141,22 @@ def load_known():
 
 
 def finding_matches(entry: dict, sig: dict) -> bool:
+    """A known finding matches a violation only if property, env, observable and trigger all agree
+    (an entry may list several alternative values for one field) and, when given, the configuration
+    matches `config` exactly or `config_regex` fully.  Anything else is a new violation."""
+    import re
+
     for k in ("property", "env", "observable", "trigger"):
-        if entry.get(k) != sig.get(k):
+        want = entry.get(k)
+        got = sig.get(k)
+        if isinstance(want, list):
+            if got not in want:
+                return False
+        elif want != got:
             return False
     if "config" in entry and entry["config"] != sig.get("config"):
+        return False
+    if "config_regex" in entry and not re.fullmatch(entry["config_regex"], str(sig.get("config", ""))):
         return False
     return True
 
